@@ -2,7 +2,7 @@
 
 Suites
   dispatch   BaseFilterEngine.do_filter (recording subclass) vs Gen.filterDispatch, every FilterType + non-members
-  engine_fn  the three REAL filter engines (pandas twice: default `str` column index / object column index) vs
+  engine_fn  the three REAL filter engines (pandas on the default `str` column index, plus an object column index tag) vs
              PyDict / ArrowSem / PandasSem on generated typed columns x filter types x parameters (+ malformed stream)
   apply_fn   BaseFilterEngine.apply_single_filters on a real FeatureSet (set iteration order passed to the model)
   time_fn    GlobalFilter._check_and_convert_time_info on aware datetimes in zoneinfo zones (folds, gaps, LMT offsets)
@@ -168,9 +168,8 @@ def oracle_rows(col: List[Any], ftype: str, p: Dict[str, Any]) -> List[int]:
 
 
 def finding_class(eng: str, ct: str, col: List[Any], ftype: str, p: Dict[str, Any], impl: Dict[str, Any], expected: List[int]) -> Optional[str]:
-    if eng == "pd" and impl.get("err") == "key":
-        # DataFrame with the pandas-3 default (str dtype) column index: data[FeatureName] -> KeyError
-        return "pandas-default-str-column-index"
+    # (a KeyError of the pandas engine on the default str-dtype column index was finding F-C11-pandas-featurename-keyerror,
+    #  fixed by commit 15de8bc: it is no known class any more, so it is reported as a new violation if it comes back)
     if eng == "pa" and ftype == "regex" and isinstance(p.get("value"), str) and not p["value"].startswith("^") and "ok" in impl:
         rx = re.compile(p["value"])
         searched = [k for k, x in enumerate(col) if x is not None and rx.search(x) is not None]
@@ -342,7 +341,8 @@ def engines() -> Dict[str, Any]:
 
 
 def lean_eng(eng: str) -> Dict[str, Any]:
-    return {"eng": "pd", "strIndex": eng == "pd"} if eng in ("pd", "pdobj") else {"eng": eng}
+    # both pandas tags (default str-dtype column index / object-dtype column index) are the same engine model
+    return {"eng": "pd"} if eng in ("pd", "pdobj") else {"eng": eng}
 
 
 def jcols(cols: Dict[str, Tuple[str, List[Any]]]) -> List[Any]:
@@ -437,6 +437,7 @@ def suite_engine_fn(ctx: Ctx, scale: float = 1.0) -> None:
     n = int(ctx.budget(2200, 16000) * scale)
     # fixed witnesses first (the known findings and the boundary cases of the property text)
     fixed = [
+        ("int", [1, 3], "min", {"value": 2}, "valid"),  # regression: witness of the FIXED finding F-C11-pandas-featurename-keyerror (15de8bc)
         ("str", ["x", "y", "abc", "b"], "regex", {"value": "b"}, "valid"),
         ("int", [1, 2, None, 3, 2, 5], "range", {"min": 2, "max": 3, "max_exclusive": True}, "valid"),
         ("int", [1, 2, None, 3, 2, 5], "range", {"min": 2, "max": 3, "max_exclusive": False}, "valid"),
@@ -459,7 +460,7 @@ def suite_engine_fn(ctx: Ctx, scale: float = 1.0) -> None:
         ct = rng.choice(["int", "float", "str"])
         col = gen_column(rng, ct, rng.choice([0, 1, 2, 3, 5, 8]))
         ft, p = gen_filter(rng, col, ct, stream)
-        engs = ["py", "pa", "pdobj"] + (["pd"] if rng.random() < 0.25 else [])
+        engs = ["py", "pa", "pd"] + (["pdobj"] if rng.random() < 0.25 else [])
         run_engine_case(ctx, E, "engine_fn", ct, col, ft, p, stream, engs, reqs, pend)
         if len(reqs) > 4000:
             flush(ctx, reqs, pend)
@@ -474,7 +475,7 @@ def suite_engine_fn(ctx: Ctx, scale: float = 1.0) -> None:
     for pat in PATTERNS_OUTSIDE:
         for _ in range(3):
             col = gen_column(rng, "str", 6)
-            run_engine_case(ctx, E, "engine_fn", "str", col, "regex", {"value": pat}, "outside", ["py", "pa", "pdobj"], reqs, pend)
+            run_engine_case(ctx, E, "engine_fn", "str", col, "regex", {"value": pat}, "outside", ["py", "pa", "pd"], reqs, pend)
     flush(ctx, reqs, pend)
 
 
@@ -503,7 +504,7 @@ def suite_apply_fn(ctx: Ctx, scale: float = 1.0) -> None:
             ft, p = gen_filter(rng, cols[c][1], cts[c], stream, hashable=True)
             specs.append((c, ft, p, stream))
         none_filters = nf == 0 and rng.random() < 0.5
-        for eng in ["py", "pa", "pdobj"]:
+        for eng in ["py", "pa", rng.choice(["pd", "pd", "pd", "pdobj"])]:
             fs = FeatureSet()
             for c in exposed:
                 fs.add(Feature(c))
@@ -759,6 +760,7 @@ def suite_e2e(ctx: Ctx, scale: float = 1.0) -> None:
     reqs: List[Any] = []
     pend: List[Any] = []
     fixed = [
+        ("int", [1, 3], [("x", "min", {"value": 2})]),  # regression for the fixed pandas KeyError: must pass on every framework
         ("int", [1, 2, None, 3, 2, 5], [("x", "range", {"min": 2, "max": 3, "max_exclusive": True})]),
         ("str", ["x", "y", "abc", "b"], [("x", "regex", {"value": "b"})]),
         ("int", [1, 2, 3, 4], [("x", "min", {"value": 2}), ("x", "max", {"value": 3})]),
@@ -930,7 +932,7 @@ def suite_e2e_time(ctx: Ctx, scale: float = 1.0) -> None:
             if "ok" in impl:
                 got = {"G": impl["ok"].get("G", {}).get("g_v"), "H": impl["ok"].get("H", {}).get("h_w")}
             if got != exp:
-                fc = "pandas-default-str-column-index" if eng == "pd" and impl.get("err") == "key" else None
+                fc = None
                 if eng == "py" and impl.get("at") == "empty" and not keep:
                     fc = "pythondict-empty-result-raises"
                 ctx.violation("e2e_time", case, f"time filter [{case['from']} .. {case['to']}{')' if excl else ']'}{' + validity range' if with_valid else ''} on {eng}: returned {got}, expected {exp}", got, exp, finding_class=fc)
